@@ -169,6 +169,16 @@ theorem json_time_default_raises :
     jsonRoundTrip Py.caster "f" { col "a" "TIME" with default := Py.tagged "time" "03:04:05" } = .error .value := by
   decide
 
+/-- C16-F08 (repaired): an ARRAY column whose element type is the untyped member is written with the
+member's value `'0'`, and `from_dict` maps that value back to the member - for the element type as it
+does for the type; before the repair the element type came back as the integer `0` (`Ty.zero`). -/
+theorem untyped_element_type_restored :
+    colFromDict Py.caster "f" (colToDict { col "a" "ARRAY" with element_type := some (.member "_MISSING_TYPE".toList) })
+      = .ok { col "a" "ARRAY" with element_type := some (.member "_MISSING_TYPE".toList) }
+    ∧ init Py.caster "f" (colToDict { col "a" "ARRAY" with element_type := some (.member "_MISSING_TYPE".toList) })
+      = .ok { col "a" "ARRAY" with element_type := some .zero } := by
+  decide
+
 /-! ## non-vacuity -/
 
 /-- a schema with an untyped column, a defaulted DECIMAL, a disposition, an ARRAY<T>, a default and statistics
@@ -179,6 +189,7 @@ def demo : Schema PyVal :=
       col "u" "_MISSING_TYPE",
       { col "d" "DECIMAL" with precision := some 28, scale := some 21, disposition := some "AGE", nullable := false },
       { col "l" "ARRAY" with element_type := some (.member "DATE".toList), aliases := some ["x", "y"] },
+      { col "m" "ARRAY" with element_type := some (.member "_MISSING_TYPE".toList) },
       { col "k" "INTEGER" with default := .int 7, highest_value := .int 9, lowest_value := .int (-1), null_count := some 0,
                                description := some "key" },
       { col "v" "VARCHAR" with length := some 12, default := .str "" } ] }
